@@ -9,6 +9,7 @@ package controller
 import (
 	"fmt"
 	"testing"
+	"testing/synctest"
 
 	"github.com/markusressel/fan2go/internal/verifshim/mc"
 )
@@ -154,7 +155,51 @@ type vxC07bCase struct {
 	Cfg vxCfg `json:"cfg"`
 }
 
+// vxC07bSameState: stateful algorithms (rate-limited direct, PID). After a history (v0, then v1) the controller is in some
+// state S; from that SAME state the next request must be non-decreasing in the curve value of the next cycle (a hotter
+// reading never yields a lower request than a cooler one would have, whatever the fan was doing before).
+func vxC07bSameState(cfg vxCfg) (string, []int, []int) {
+	stepV := 5
+	if mc.Thorough() {
+		stepV = 2
+	}
+	var first, last []int
+	for _, v0 := range []int{0, 128, 255} {
+		for _, v1 := range []int{0, 60, 128, 200, 255} {
+			fz := vxNewFixRole(cfg, "search")
+			for k := 0; k < 3; k++ {
+				fz.vxCycle(vxSym{Curve: v0, Rpm: 1000, DtMs: 200})
+			}
+			if o := fz.vxCycle(vxSym{Curve: v1, Rpm: 1000, DtMs: 200}); o.Panic != "" || o.Err != nil {
+				return fmt.Sprintf("cycle failed at v1=%d: %v %v", v1, o.Panic, o.Err), nil, nil
+			}
+			base := mc.Clone(fz.ctl, fz.pmap, fz.ctl.pwmValuesWithDistinctTarget)
+			files := fz.vxSaveFiles()
+			prevReq, prevDev, prevV := -1, -1, -1
+			for v2 := 0; v2 <= 255; v2 += stepV {
+				fz.vxAttach(&vxSnap{Ctl: mc.Clone(base, fz.pmap, base.pwmValuesWithDistinctTarget), Files: files})
+				o2 := fz.vxCycle(vxSym{Curve: v2, Rpm: 1000, DtMs: 200})
+				if o2.Panic != "" || o2.Err != nil {
+					return fmt.Sprintf("cycle failed at v2=%d: %v %v", v2, o2.Panic, o2.Err), nil, nil
+				}
+				if prevV >= 0 && (o2.Req < prevReq || o2.DevPwm < prevDev) {
+					return fmt.Sprintf("history: curve %d for 3 cycles, then %d; from that state curve value %d gives request %d (written %d) but the HIGHER curve value %d gives request %d (written %d)", v0, v1, prevV, prevReq, prevDev, v2, o2.Req, o2.DevPwm), nil, nil
+				}
+				prevReq, prevDev, prevV = o2.Req, o2.DevPwm, v2
+				if v2 == 0 {
+					first = append(first, o2.Req)
+				}
+				last = append(last[:0], o2.Req)
+			}
+		}
+	}
+	return "", append(first, last...), nil
+}
+
 func vxC07bRun(cfg vxCfg) (string, []int, []int) {
+	if cfg.Algo != "direct" {
+		return vxC07bSameState(cfg)
+	}
 	reqs := make([]int, 256)
 	devs := make([]int, 256)
 	// sweep on ONE controller in ascending order (direct is memoryless, but use the real history) ...
@@ -225,7 +270,9 @@ func TestVX_C07b(t *testing.T) {
 	defer vxCleanup()
 	var rc vxC07bCase
 	if mc.ReplayCase(&rc) {
-		if msg, _, _ := vxC07bRun(rc.Cfg); msg != "" {
+		var msg string
+		synctest.Test(t, func(t *testing.T) { msg, _, _ = vxC07bRun(rc.Cfg) })
+		if msg != "" {
 			rep.Violate(mc.Violation{Signature: "C07 direct request/written not monotone in curve value", Detail: msg, Replay: rc})
 		}
 		rep.Evaluations = 1
@@ -245,17 +292,36 @@ func TestVX_C07b(t *testing.T) {
 				cfgs = append(cfgs, vxCfg{Kind: "hwmon", NeverStop: ns, Min: mn, Max: 255, Map: mp, Algo: "direct", StartPwm: 40, StartMode: 2})
 			}
 			cfgs = append(cfgs, vxCfg{Kind: "file", NeverStop: ns, Min: -1, Max: -1, Map: mp, Algo: "direct", StartPwm: 40})
+			// stateful algorithms: same-state monotonicity
+			for _, algo := range []string{"direct:1", "direct:10", "direct:100", "pid"} {
+				for _, lim := range [][2]int{{-1, -1}, {50, 200}, {0, 100}} {
+					cfgs = append(cfgs, vxCfg{Kind: "hwmon", NeverStop: ns, Min: lim[0], Max: lim[1], Map: mp, Algo: algo, StartPwm: 40, StartMode: 2})
+				}
+			}
 		}
 	}
 	for ci, cfg := range cfgs {
 		if !mc.Mine(ci) {
 			continue
 		}
-		msg, reqs, devs := vxC07bRun(cfg)
+		var msg string
+		var reqs, devs []int
+		if cfg.Algo != "direct" {
+			// stateful algorithms see time pass between cycles: virtual clock
+			synctest.Test(t, func(t *testing.T) { msg, reqs, devs = vxC07bRun(cfg) })
+		} else {
+			msg, reqs, devs = vxC07bRun(cfg)
+		}
 		rep.Configs++
 		rep.Evaluations += 512
 		if msg != "" {
 			rep.Violate(mc.Violation{Signature: "C07 direct request/written not monotone in curve value", Detail: msg + "\nconfig: " + cfg.String(), Replay: vxC07bCase{cfg}})
+			continue
+		}
+		if cfg.Algo != "direct" {
+			if len(reqs) > 1 && reqs[len(reqs)-1] > reqs[0] {
+				rep.AddDistinct(1)
+			}
 			continue
 		}
 		// non-trivial: sweeps whose request actually varies
